@@ -571,7 +571,7 @@ func init() {
 	vf.Register(&vf.Check{
 		ID: "C03", Title: "only complete messages are committed; IsDelivered tells the truth",
 		Run: func(r *vf.Run) {
-			r.SetRule("batches of 1..3 messages over shapes {single, alternative, body+attachment, body+embed, body+attachment from a reader, body+embed from a read-seeker, single 8bit body, 8bit body + 8bit alternative + 7bit attachment}; (history) the same Msg objects delivered once over a fault-free connection BEFORE the judged Send; (history) the same Msg objects sent again over a fault-free connection, unchanged or after all their recipients were removed (second attempt refused before MAIL FROM); choice points: every content producer {ok, fail before first byte, fail after half — with a generic error, with io.EOF, with a wrapped io.EOF, with an error whose text reads like a 4yz / 5yz reply}, S/MIME signing of single-part messages {off, fails at render time before the first byte}, transport failure in each DATA phase at {never, first content byte, inside headers, inside a part body, just before the end, inside the end-of-data marker, inside the content of the last part}, server reply at NOOP/MAIL/RCPT/DATA/RSET {ok,4yz,5yz,drop,multi-line ok,421+disconnect} and at end-of-data {250,4yz,5yz,drop,251,multi-line 250}; all vectors with <= k deviations; oracle: server commit log vs. reference rendering of the same Msg objects; distinct by (configuration, choice vector)")
+			r.SetRule("batches of 1..3 messages over shapes {single, alternative, body+attachment, body+embed, body+attachment from a reader, body+embed from a read-seeker, single 8bit body, 8bit body + 8bit alternative + 7bit attachment}; (history) the same Msg objects delivered once over a fault-free connection BEFORE the judged Send; (history) the same Msg objects sent again over a fault-free connection, unchanged or after all their recipients were removed (second attempt refused before MAIL FROM); choice points: every content producer {ok, fail before first byte, fail after half — with a generic error, with io.EOF, with a wrapped io.EOF, with an error whose text reads like a 4yz / 5yz reply}, S/MIME signing of single-part messages {off, fails at render time before the first byte}, transport failure in each DATA phase at {never, first content byte, inside headers, inside a part body, just before the end, inside the end-of-data marker, inside the content of the last part}, server reply at NOOP/MAIL/RCPT/DATA/RSET {ok,4yz,5yz,drop,multi-line ok,421+disconnect} and at end-of-data {250,4yz,5yz,drop,251,multi-line 250}; all vectors with <= k deviations; oracle: server commit log vs. reference rendering of the same Msg objects; plus two goroutines calling Send on one established connection, every interleaving up to 2 preemptions (scheduler of C13), same oracle; distinct by (configuration, choice vector)")
 			r.Assume("the reference rendering is WriteTo on the same Msg after Send with faults disabled (default file encodings; repeatability itself is C11)",
 				"the transport's final CRLF after content that does not end in CRLF is not part of the message")
 			type job struct {
@@ -648,6 +648,41 @@ func init() {
 					}
 				})
 			}
+			// concurrent Send calls on ONE established connection: every interleaving of two callers at the visible
+			// operations (mutexes, connection I/O) up to 2 preemptions under the cooperative scheduler of C13; the oracle is
+			// this property's: what the server commits are complete messages, each at most once, IsDelivered tells the truth
+			for _, scn := range []c13Scn{{Name: "2xSend(1)", Senders: 2, PerCall: 1}, {Name: "2xSend(2)", Senders: 2, PerCall: 2}} {
+				scn := scn
+				b := 2
+				if scn.PerCall > 1 && !r.Thorough {
+					b = 1
+				}
+				// (one worker: the cooperative scheduler owns process-wide state, executions must not overlap)
+				vf.ExploreN(r, 1, b, "C03 concurrent "+scn.Name, func(c *vf.Chooser) {
+					fs, _, _ := c13Exec(r, scn, c)
+					if c.Silent {
+						return
+					}
+					r.TraceValidated()
+					r.Eval(vf.Hash("concurrent", scn.Name, fmt.Sprint(c.Picks)), c.Deviations() > 0)
+					r.Outcome("reached/concurrent-senders")
+					kase := c03Case{Cfg: c03Cfg{M: -scn.PerCall}, Prefix: append([]int{}, c.Picks...)}
+					for _, f := range fs {
+						f := f
+						key := "concurrent-senders/" + f.key
+						r.Violation(key, f.what+" — two goroutines calling Send on one connection ("+scn.Name+"), schedule deviations: "+c.Describe(nil), kase, func() string {
+							xs, _, _ := c13Exec(r, scn, vf.NewChooser(kase.Prefix))
+							for _, x := range xs {
+								if x.key == f.key {
+									return key
+								}
+							}
+							return ""
+						})
+					}
+				})
+			}
+			r.Reached("reached/concurrent-senders")
 			r.Reached("reached/transport-failure-class-1", "reached/transport-failure-class-2", "reached/transport-failure-class-3", "reached/transport-failure-class-4", "reached/transport-failure-class-5", "reached/transport-failure-class-6",
 				"reached/signing-failure", "reached/producer-failure", "reached/commit", "reached/resend-committed-all", "reached/resend-after-transport-failure", "reached/resend-refused-locally", "reached/delivered-before-the-judged-send")
 		},
@@ -655,6 +690,16 @@ func init() {
 			var k c03Case
 			if err := json.Unmarshal(kase, &k); err != nil {
 				r.HarnessError("bad case: %v", err)
+				return
+			}
+			if k.Cfg.M < 0 {
+				scn := c13Scn{Name: fmt.Sprintf("2xSend(%d)", -k.Cfg.M), Senders: 2, PerCall: -k.Cfg.M}
+				fs, _, _ := c13Exec(r, scn, vf.NewChooser(k.Prefix))
+				r.Eval(1, true)
+				for _, f := range fs {
+					fmt.Printf("  -> concurrent-senders/%s: %s\n", f.key, f.what)
+					r.Violation("concurrent-senders/"+f.key, f.what, k, nil)
+				}
 				return
 			}
 			c := vf.NewChooser(k.Prefix)
